@@ -715,3 +715,9 @@ def r13_12(ctx):
 def r13_13(ctx):
     from .c10 import r10_11
     r10_11(ctx)
+
+
+@rule("R13.14", min_instances=2, desc="re-declaring the horizon leaves no trace of the earlier declaration: the guess recorded for the horizon that is re-declared (and only that one) is dropped (shared with C11: R11.8)")
+def r13_14(ctx):
+    from .c11 import r11_8
+    r11_8(ctx)
